@@ -51,6 +51,12 @@ type Recorder struct {
 	AliveFilter func(n *memberlist.Node) error
 	// BlockMsg, when set, makes NotifyMsg wait on it (to hold the packet handler).
 	BlockMsg chan struct{}
+	// HoldEvent, when set, makes the membership event about HoldName wait on it; the
+	// callback runs under the node lock, so this keeps the node lock held. Holding is
+	// set while a callback is parked there.
+	HoldEvent chan struct{}
+	HoldName  string
+	Holding   atomic.Int32
 }
 
 func NewRecorder() *Recorder { return &Recorder{start: time.Now()} }
@@ -98,6 +104,11 @@ func (r *Recorder) event(kind string, n *memberlist.Node) {
 	}
 	// widen the window for an unserialized concurrent callback
 	runtime.Gosched()
+	if r.HoldEvent != nil && n.Name == r.HoldName {
+		r.Holding.Store(1)
+		<-r.HoldEvent
+		r.Holding.Store(0)
+	}
 	r.add(nodeEv(kind, n))
 	runtime.Gosched()
 	r.inEvent.Add(-1)
